@@ -9,6 +9,7 @@ import DvcData.Model.Status
 import DvcData.Model.Transfer
 import DvcData.Model.IndexDiff
 import DvcData.Model.IndexCheckout
+import DvcData.Model.State
 open Lean DvcData
 
 /-! Line-protocol driver: one JSON request per line on stdin, one JSON answer per line on stdout.
@@ -403,6 +404,70 @@ def opIdxCheckout (j : Lean.Json) : Except String Lean.Json := do
     pure (Lean.Json.mkObj [("actions", actionsTo a), ("ws", wsTo ws'),
       ("errors", Lean.Json.arr (errs.map keyTo).toArray), ("second", actionsTo a2)])
 
+/-! ### hash-state cache histories -/
+
+def stampOf (j : Lean.Json) : Except String State.Stamp := do
+  match (← j.getArr?).toList with
+  | [a, b, c] => pure { ino := ← a.getNat?, mtime := ← b.getNat?, size := ← c.getNat? }
+  | _ => throw "stamp"
+
+def hitTo : Option (String × String) → Lean.Json
+  | none => .null
+  | some (a, v) => Lean.Json.arr #[.str a, .str v]
+
+/-- the digests of the current bytes are supplied by the caller: `H` is a parameter of the model -/
+def digestTable (j : Lean.Json) : Except String (List (String × String)) := do
+  (← j.getArr?).toList.mapM fun p => do
+    match (← p.getArr?).toList with
+    | [a, v] => pure (← a.getStr?, ← v.getStr?)
+    | _ => throw "digest pair"
+
+def stateStep (st : State.Db × State.Fs) (j : Lean.Json) : Except String ((State.Db × State.Fs) × Lean.Json) := do
+  let (db, fs) := st
+  let isLocal := match j.getObjVal? "local" with | .ok (.bool false) => false | _ => true
+  match (← str j "op") with
+  | "write" =>
+    let p ← str j "path"
+    pure ((db, State.mutate fs p (← unhex (← str j "bytes")) (← stampOf (← j.getObjVal? "stamp"))), .null)
+  | "delete" => pure ((db, State.delete fs (← str j "path")), .null)
+  | "save" =>
+    let p ← str j "path"
+    let al ← str j "algo"
+    let vl ← str j "value"
+    pure ((if isLocal then State.save db fs p al vl else db, fs), .null)
+  | "raw_row" =>
+    let p ← str j "path"
+    let ver := match j.getObjVal? "version" with | .ok (.num n) => some n.mantissa.toNat | _ => none
+    let ck ← stampOf (← j.getObjVal? "stamp")
+    let sz ← nat j "size"
+    let al ← str j "algo"
+    let vl ← str j "value"
+    let row : State.Row := { version := ver, checksum := ck, size := sz, algo := al, value := vl }
+    pure ((db.set p row, fs), .null)
+  | "get" => pure ((db, fs), hitTo (State.get db fs isLocal (← str j "path")))
+  | "get_many" =>
+    let ps ← strList j "paths"
+    pure ((db, fs), Lean.Json.arr ((State.getMany db fs isLocal ps).map fun r => hitTo r.2).toArray)
+  | "hash_file" =>
+    let p ← str j "path"
+    let name ← str j "name"
+    let tbl ← digestTable (← j.getObjVal? "digests")
+    let H : State.Algo → State.Bytes → State.Digest := fun a _ => ((tbl.find? (·.1 = a)).map (·.2)).getD "?"
+    match State.hashFile H db fs isLocal p name with
+    | none => pure ((db, fs), Lean.Json.str "FileNotFoundError")
+    | some (v, db') => pure ((db', fs), Lean.Json.str v)
+  | o => throw s!"bad state op {o}"
+
+def opStateHistory (j : Lean.Json) : Except String Lean.Json := do
+  let ops ← arr j "ops"
+  let mut st : State.Db × State.Fs := ([], [])
+  let mut outs : Array Lean.Json := #[]
+  for o in ops do
+    let (st', out) ← stateStep st o
+    st := st'
+    outs := outs.push out
+  pure (Lean.Json.mkObj [("results", Lean.Json.arr outs)])
+
 def kindOf (s : String) : Except String Merge.Kind :=
   match s with
   | "add" => pure .add | "remove" => pure .remove | "change" => pure .change
@@ -439,6 +504,7 @@ def dispatch (j : Json) : Except String Json := do
   | "index_diff" => opIndexDiff j
   | "diff_entry" => opDiffEntry j
   | "idx_checkout" => opIdxCheckout j
+  | "state_history" => opStateHistory j
   | "ping" => pure (Json.mkObj [("pong", true)])
   | op => throw s!"unknown op {op}"
 
